@@ -148,8 +148,34 @@ def run_translators(ctx):
             write_if_changed(os.path.join(LEAN, "Cutadapt", "Generated", outname), text)
             hashes[outname] = hashlib.sha256(text.encode()).hexdigest()[:12]
         except Exception as e:  # the code was restructured: tie broken
-            errors.append(f"{fn}: {type(e).__name__}: {e}")
+            out = getattr(mod, "OUTPUT", None)
+            # a translator that cannot extract what it needs breaks the tie for the properties whose theorems use its output
+            if out is None or out[:-5] in generated_imports(ctx.prop):
+                errors.append(f"{fn}: {type(e).__name__}: {e}")
+            else:
+                ctx.notes.append(f"translator {fn} failed ({type(e).__name__}: {e}); its output {out} is not used by {ctx.prop}")
     return hashes, errors
+
+
+def generated_imports(prop):
+    """names X of the modules Cutadapt.Generated.X in the import closure of the property's theorem files"""
+    import re
+    roots = [f"Cutadapt.Properties.{prop}"] + list(extra_obligations(prop).keys())
+    seen, todo, gen = set(), list(roots), set()
+    while todo:
+        m = todo.pop()
+        if m in seen:
+            continue
+        seen.add(m)
+        path = os.path.join(LEAN, *m.split(".")) + ".lean"
+        if not os.path.exists(path):
+            continue
+        for imp in re.findall(r"^import\s+(Cutadapt\.[A-Za-z0-9_.]+)", open(path).read(), re.M):
+            if imp.startswith("Cutadapt.Generated."):
+                gen.add(imp.split(".")[-1])
+            else:
+                todo.append(imp)
+    return gen
 
 
 # ------------------------------------------------------------------------------------------------
